@@ -154,31 +154,37 @@ class FlattenFeaturesCalculator(FeaturesCalculator):
         super(FlattenFeaturesCalculator, self).__init__()
         self.prev = prev
         self.mod = None
+        self.prefix = ""
         self.multiplier = torch.tensor(multiplier)
         self.mask_expander = torch.ones((multiplier,))
 
     @property
     def features(self) -> torch.Tensor:
-        mul = cast(nn.Module, self.mod).feat_calc_multiplier
+        mul = getattr(self.mod, self.prefix + 'feat_calc_multiplier')
         return mul * self.prev.features
 
     @property
     def features_mask(self) -> torch.Tensor:
         prev_mask = self.prev.features_mask
+        expander = getattr(self.mod, self.prefix + 'feat_calc_mask_expander')
         mask_list = []
         for elm in prev_mask:
-            mask_list.append(elm * cast(nn.Module, self.mod).feat_calc_mask_expander)
+            mask_list.append(elm * expander)
         mask = torch.cat(mask_list, dim=0)
         return mask
 
     def register(self, mod: nn.Module, prefix: str = ""):
+        # the prefix keeps apart several calculators registered on the same module
+        # (e.g. two flattened tensors of different spatial size that are concatenated)
+        own_prefix = prefix
         # recursively ensure that predecessors are registers
         prefix = "prev_" + prefix
         self.prev.register(mod, prefix)
         if self.mod is None:
             self.mod = mod
-            mod.register_buffer('feat_calc_multiplier', self.multiplier)
-            mod.register_buffer('feat_calc_mask_expander', self.mask_expander)
+            self.prefix = own_prefix
+            mod.register_buffer(own_prefix + 'feat_calc_multiplier', self.multiplier)
+            mod.register_buffer(own_prefix + 'feat_calc_mask_expander', self.mask_expander)
 
 
 class ConcatFeaturesCalculator(FeaturesCalculator):
